@@ -55,6 +55,7 @@ type FuncSpec struct {
 	Pkg      string
 	Where    string
 	Asserts  map[string]bool
+	NoWrap   bool     // stated assumption: unsigned additions in this function do not wrap around
 	Refines  []string // interface methods ("pkg.Iface.Method") whose contract this implementation must satisfy
 }
 
@@ -602,6 +603,12 @@ func (sp *Specs) parseSpecText(file, text, pkgPath string) {
 			case "fresh":
 				for _, n := range strings.Split(rest, ",") {
 					cur.Fresh = append(cur.Fresh, strings.TrimSpace(n))
+				}
+			case "assume":
+				if strings.TrimSpace(rest) == "nowrap" {
+					cur.NoWrap = true
+				} else {
+					sp.errf(where, "unknown assumption %q", rest)
 				}
 			case "refines":
 				cur.Refines = append(cur.Refines, strings.Trim(strings.TrimSpace(rest), "\""))
